@@ -199,7 +199,7 @@ def compare(obs_db, obs_rdb, m, flip):
 
 PK1 = list("abcdefgh")
 TG1 = list("pqrstu")
-PKM = ["ab", "libfoo", "x11-apps", "g++", "a.b", "zsh", "py3", "longname"]
+PKM = ["ab", "libfoo", "x11-apps", "g++", "a.b", "zsh", "py3", "longname", "libc6:amd64", "q:r"]
 TGM = ["devel::lang", "devel::lib", "use::edit", "role::program", "ui::x11", "zz", "role::data", "x::100%s"]
 
 
@@ -319,6 +319,18 @@ def describe(case):
             "trace_len": len(case["trace"])}
 
 
+def _split_line(line):
+    """packages / tags of one collection line: the separator is the first colon that is
+    followed by a blank, or a colon at the very end (package names may contain colons,
+    e.g. libc6:amd64)"""
+    i = line.find(": ")
+    if i >= 0:
+        return line[:i], line[i + 2:]
+    if line.endswith(":"):
+        return line[:-1], ""
+    return line, ""
+
+
 class _Sim(object):
     """Model-side bookkeeping shared by generator and executor: stores (ideal and aliasing
     universe), families, handles = (store index, flip)."""
@@ -328,10 +340,7 @@ class _Sim(object):
         if not world.get("empty_db"):
             tf = pred_fn(world["tag_filter"]) if world.get("tag_filter") else None
             for line in world["lines"]:
-                if ":" in line:
-                    left, right = line.split(":", 1)
-                else:
-                    left, right = line, ""
+                left, right = _split_line(line)
                 pkgs = [p for p in left.split(", ") if p]
                 tags = set(t.strip() for t in right.split(", ") if t.strip())
                 if tf:
@@ -456,9 +465,9 @@ def execute(case):
         if tf:
             out.probe("read_with_tag_filter")
         db0.read(_stream(world), tf)
-    if any(":" not in l or l.endswith(":") for l in world["lines"]):
+    if any(_split_line(l)[1] == "" for l in world["lines"]):
         out.probe("package_without_tags")
-    if any(", " in l.split(":")[0] for l in world["lines"]):
+    if any(", " in _split_line(l)[0] for l in world["lines"]):
         out.probe("line_with_several_packages")
     sut = [db0]                 # parallel to sim.handles
     tainted = set()             # store indices excluded after a known-finding hit
@@ -667,8 +676,8 @@ def shrink_candidates(case):
         c["world"]["stream"] = "list"
         yield c
     for i, l in enumerate(w["lines"]):
-        if ":" in l:
-            left, right = l.split(":", 1)
+        if _split_line(l)[1]:
+            left, right = _split_line(l)
             tags = [t.strip() for t in right.split(", ") if t.strip()]
             for j in range(len(tags)):
                 c = copy.deepcopy(case)
